@@ -9,6 +9,14 @@ use aelys_native::AelysNativeFn;
 
 impl VM {
     fn ensure_heap_capacity(&self, additional: u64) -> Result<(), RuntimeError> {
+        #[cfg(vbxq_aelys_lang_verif)]
+        crate::verif::heap_check_note(
+            additional,
+            (self.heap.bytes_allocated() as u128)
+                + (self.manual_heap.bytes_allocated() as u128)
+                + (additional as u128)
+                <= self.config.max_heap_bytes as u128,
+        );
         let heap_bytes = self.heap.bytes_allocated() as u64;
         let manual_bytes = self.manual_heap.bytes_allocated() as u64;
         let used = heap_bytes.checked_add(manual_bytes).ok_or_else(|| {
